@@ -171,7 +171,7 @@ theorem nextTokenRaw_obs : ∀ (fuel : Nat) (s : PState), s.lx.limit = none → 
 
 /-- what the rest of the development knows about a parser state: no token limit, and the error list is
     non-empty once the parser stopped accepting errors -/
-structure W (s : PState) : Prop where
+structure TW (s : PState) : Prop where
   limit : s.lx.limit = none
   acc : s.acceptErrors = false → s.errors ≠ []
 
@@ -192,20 +192,20 @@ theorem ObsEq.toks {s s' : PState} (h : ObsEq s s') : Toks s' = Toks s := by
 theorem ObsEq.doomed {s s' : PState} (h : ObsEq s s') : Doomed s' ↔ Doomed s := by
   unfold Doomed; rw [h.errors, h.lx]
 
-theorem ObsEq.w {s s' : PState} (h : ObsEq s s') (w : W s) : W s' :=
+theorem ObsEq.w {s s' : PState} (h : ObsEq s s') (w : TW s) : TW s' :=
   ⟨by rw [h.lx]; exact w.limit, by rw [h.accept, h.errors]; exact w.acc⟩
 
 structure PeekObs (s s' : PState) (o : Option Tok) : Prop where
   toks : Toks s' = Toks s
   doom : Doomed s' ↔ Doomed s
-  w : W s'
+  w : TW s'
   current : s'.current = o
   head : o = (Toks s).head?
   accept : s'.acceptErrors = s.acceptErrors
   recCur : s'.recCur = s.recCur
   recLimit : s'.recLimit = s.recLimit
 
-theorem peekToken_obs (s s' : PState) (o : Option Tok) (w : W s) (h : peekToken.run s = .ok o s') : PeekObs s s' o := by
+theorem peekToken_obs (s s' : PState) (o : Option Tok) (w : TW s) (h : peekToken.run s = .ok o s') : PeekObs s s' o := by
   unfold peekToken at h
   simp only [] at h
   cases hc : s.current with
